@@ -64,6 +64,11 @@ let parse_op (s : string) : K.op =
 
 let class_name (c : K.nat) = match int_of_nat c with 0 -> "old" | 1 -> "new" | _ -> "other"
 
+(* the expected new contents: hex, or "#<length>" for the multi-megabyte cases (big=): only the length is used there *)
+let new_of (nw : string) : string =
+  if String.length nw > 0 && nw.[0] = '#' then String.make (int_of_string (String.sub nw 1 (String.length nw - 1))) 'x'
+  else unhex nw
+
 let judge (inp : string) (obs : string) : string * string =
   let ikv = kv_fields ';' inp in
   let mode = get ikv "mode" in
@@ -80,8 +85,8 @@ let judge (inp : string) (obs : string) : string * string =
     match String.split_on_char ':' f with [n; c] -> Some (n, c) | _ -> None) (split_on ',' (get okv "finals")) in
   let details = List.filter_map (fun d ->
     match String.split_on_char '^' d with
-    | [n; p; nw; ops] -> Some (n, (p = "1", unhex nw, split_on ',' ops))
-    | [n; p; nw] -> Some (n, (p = "1", unhex nw, []))
+    | [n; p; nw; ops] -> Some (n, (p = "1", new_of nw, split_on ',' ops))
+    | [n; p; nw] -> Some (n, (p = "1", new_of nw, []))
     | _ -> None) (String.split_on_char '|' det) in
   let fails = ref [] in
   let fail s = fails := s :: !fails in
@@ -90,6 +95,10 @@ let judge (inp : string) (obs : string) : string * string =
   let expected = List.map (fun (name, old) ->
     let (parses, nw, _) = (try List.assoc name details with Not_found -> (false, "", [])) in
     if not parses then (name, "old")
+    else if get ikv "big" <> "" then
+      (* a journal of several megabytes: the extracted protocol is not evaluated on 5 * 10^6 list cells; the expected
+         class is what C18_protocol proves of it -- new iff no fault, old otherwise *)
+      (name, if mode = "rlimit" && String.length nw > limit then "old" else "new")
     else
       let oldb = bytes_of_string old and newb = bytes_of_string nw in
       let flt =
